@@ -306,4 +306,19 @@ Proof.
   - apply (walk_refines h1 h2 _ _ strict F0 K1 (hold_congr h1 h2 find_h1 find_h2) n e ds tr st W e Hn Ho1). intros v _. reflexivity.
   - apply (walk_refines h2 h1 _ _ strict F0 K1 (hold_congr h2 h1 find_h2 find_h1) n e ds tr st W e Hn Ho2). intros v _. reflexivity.
 Qed.
+
+Theorem ehier_congr_c n e ds :
+  (exists b, efind g1 n = Some b /\ e_kind b = EPlain 100) ->
+  (CTrace h1 (resolve_flat h1) strict n e ds <-> CTrace h2 (resolve_flat h2) strict n e ds).
+Proof.
+  intros [b [Hb Hk]].
+  assert (Hn : K1 n) by (eapply efind_keys; eauto).
+  assert (Ho1 : exists b0 p, find h1 n = Some b0 /\ n_kind b0 = KOrig p).
+  { exists (node_of top (n, b)), 1. split; [apply find_h1; exact Hb|]. unfold node_of, kind_of. cbn. rewrite Hk. reflexivity. }
+  assert (Ho2 : exists b0 p, find h2 n = Some b0 /\ n_kind b0 = KOrig p).
+  { exists (node_of top (n, b)), 1. split; [apply find_h2; exact Hb|]. unfold node_of, kind_of. cbn. rewrite Hk. reflexivity. }
+  split; intros W.
+  - apply (ctrace_refines h1 h2 _ _ strict F0 K1 (hold_congr h1 h2 find_h1 find_h2) n e ds W e Hn Ho1). intros v _. reflexivity.
+  - apply (ctrace_refines h2 h1 _ _ strict F0 K1 (hold_congr h2 h1 find_h2 find_h1) n e ds W e Hn Ho2). intros v _. reflexivity.
+Qed.
 End EhierCongr.
